@@ -15,6 +15,7 @@ macro_rules! table {
             30 => x.powf(y), 31 => x.atan2(y), 32 => x.log(y), 33 => x.hypot(y), 34 => x.copysign(y),
             40 => x.powi($b as i64 as i32),
             41 => x.mul_add(y, z),
+            50 => ((x as f32) as f64) as $t,
             100 => <$t as num_traits::FloatConst>::E(), 101 => <$t as num_traits::FloatConst>::FRAC_1_PI(),
             102 => <$t as num_traits::FloatConst>::FRAC_1_SQRT_2(), 103 => <$t as num_traits::FloatConst>::FRAC_2_PI(),
             104 => <$t as num_traits::FloatConst>::FRAC_2_SQRT_PI(), 105 => <$t as num_traits::FloatConst>::FRAC_PI_2(),
